@@ -355,3 +355,20 @@ Example embedded_whole_and_promoted :
   /\ spec_to_go 9 te_ex nB (SRec 1 [98] [([105], SInt 4); ([68], SRec 0 [100] [([80], SInt 9)])])
      = SOk (DPtr 1 (DStruct nB [DStruct nD [DInt 9]; DInt 4])).
 Proof. repeat split; try (eexists; split; vm_compute; reflexivity); vm_compute; reflexivity. Qed.
+
+(* name clash between a field of the struct and a field promoted from an embedded struct:
+   X = DocBase{Name `n`}, Y = Doc{X; Name `n`} (embedded first), Z = Doc2{Name `n`; X} (embedded last).
+   For Y the code's overwrite map (last wins) and Go's selector rule (own field wins) agree; for Z the code resolves
+   the key to the HIDDEN embedded field — such a table is not well-formed (reported to the lead as a defect of the
+   unchanged code: SexpToGoStructs(doc2 n:..) fills Z.X.Name and leaves Z.Name empty). *)
+Definition te_clash : tenv :=
+  mkT [ mkS [88] (Some [120]) [ mkField [78] (Some [110]) false TString ];
+        mkS [89] (Some [121]) [ mkField [88] None true (TStruct [88]); mkField [78] (Some [110]) false TString ];
+        mkS [90] (Some [122]) [ mkField [78] (Some [110]) false TString; mkField [88] None true (TStruct [88]) ] ] [].
+Example name_clash_resolution :
+  resolve 9 te_clash [89] [110] = Some [1%nat] /\ spec_find 9 te_clash [89] [110] = Some [1%nat]
+  /\ resolve 9 te_clash [90] [110] = Some [1%nat; 0%nat] /\ spec_find 9 te_clash [90] [110] = Some [0%nat]
+  /\ wf_tenv 9 te_clash = false
+  /\ wf_tenv 9 (mkT [ mkS [88] (Some [120]) [ mkField [78] (Some [110]) false TString ];
+                      mkS [89] (Some [121]) [ mkField [88] None true (TStruct [88]); mkField [78] (Some [110]) false TString ] ] []) = true.
+Proof. repeat split; vm_compute; reflexivity. Qed.
